@@ -644,6 +644,42 @@ fn near(a: f64, b: f64) -> bool {
     (a - b).abs() <= 1e-6 * a.abs().max(b.abs()).max(1.)
 }
 
+/// Carries out a quoted insertion and compares every additive layer of the quote with the realised fitness change.
+#[allow(clippy::too_many_arguments)]
+fn compare_quote(ctx: &InsertionContext, rendered: &Rendered, layers: &[Layer], before: &[f64], success: InsertionSuccess, r: &RouteContext, j: &Job, pos: &str, stats: &Stats) -> Check {
+    let quote: Vec<f64> = success.cost.iter().collect();
+    let actor = success.actor.clone();
+    let indices: Vec<usize> = success.activities.iter().map(|(_, i)| *i).collect();
+    let what = format!("job {} at {pos} (leg indices {indices:?}, places {:?}) into route [{}]", job_id(j), success.activities.iter().map(|(a, _)| (a.place.idx, a.place.location)).collect::<Vec<_>>(), describe_route(r));
+    let after = apply(ctx, success)?;
+    stats.eval();
+    let realised: Vec<f64> = after.problem.goal.fitness(&after).collect();
+    let target = after.solution.routes.iter().find(|rc| rc.route().actor == actor);
+    let Some(target) = target else {
+        return Err(Failure::new("quote:placement-not-carried-out", format!("after applying the quoted insertion the tour does not exist: {what}")));
+    };
+    let waiting = has_waiting(r) || has_waiting(target);
+    for (li, layer) in layers.iter().enumerate() {
+        let delta = realised[li] - before[li];
+        let q = quote.get(li).copied().unwrap_or(0.);
+        if *layer == Layer::Cost && waiting {
+            stats.class("quote.cost_layer.outside_premise_waiting_time");
+            continue;
+        }
+        if !near(delta, q) {
+            return Err(Failure::new(
+                format!("quote:{layer:?}"),
+                format!("layer {li} ({layer:?}): quoted {q}, realised change {delta} (fitness {} -> {}); full quote {quote:?}, fitness before {before:?} after {realised:?}; {what}\n--- problem+matrices:\n{}", before[li], realised[li], doc(rendered)),
+            ));
+        }
+        stats.class(&format!("quote.layer_checked.{layer:?}"));
+        if *layer == Layer::Cost {
+            stats.class("quote.cost_layer.no_waiting");
+        }
+    }
+    Ok(())
+}
+
 pub struct QuoteProp;
 
 impl Prop for QuoteProp {
@@ -706,35 +742,8 @@ impl Prop for QuoteProp {
             let (r, j) = (routes[ri], &jobs[ji]);
             let success = triples[k].3.take().unwrap();
             let quote: Vec<f64> = success.cost.iter().collect();
-            let actor = success.actor.clone();
             let indices: Vec<usize> = success.activities.iter().map(|(_, i)| *i).collect();
-            let what = format!("job {} at {:?} (leg indices {indices:?}, places {:?}) into route [{}]", job_id(j), pos, success.activities.iter().map(|(a, _)| (a.place.idx, a.place.location)).collect::<Vec<_>>(), describe_route(r));
-            let after = apply(&ctx, success)?;
-            stats.eval();
-            let realised: Vec<f64> = after.problem.goal.fitness(&after).collect();
-            let target = after.solution.routes.iter().find(|rc| rc.route().actor == actor);
-            let Some(target) = target else {
-                return Err(Failure::new("quote:placement-not-carried-out", format!("after applying the quoted insertion the tour does not exist: {what}")));
-            };
-            let waiting = has_waiting(r) || has_waiting(target);
-            for (li, layer) in layers.iter().enumerate() {
-                let delta = realised[li] - before[li];
-                let q = quote.get(li).copied().unwrap_or(0.);
-                if *layer == Layer::Cost && waiting {
-                    stats.class("quote.cost_layer.outside_premise_waiting_time");
-                    continue;
-                }
-                if !near(delta, q) {
-                    return Err(Failure::new(
-                        format!("quote:{layer:?}"),
-                        format!("layer {li} ({layer:?}): quoted {q}, realised change {delta} (fitness {} -> {}); full quote {quote:?}, fitness before {before:?} after {realised:?}; {what}\n--- problem+matrices:\n{}", before[li], realised[li], doc(&rendered)),
-                    ));
-                }
-                stats.class(&format!("quote.layer_checked.{layer:?}"));
-                if *layer == Layer::Cost {
-                    stats.class("quote.cost_layer.no_waiting");
-                }
-            }
+            compare_quote(&ctx, &rendered, &layers, &before, success, r, j, &format!("{pos:?}"), stats)?;
             let inner = r.route().tour.job_count() > 0 && indices.iter().any(|i| *i > 0);
             let dist_layer = layers.iter().position(|l| *l == Layer::Distance || *l == Layer::Cost);
             let nonzero = dist_layer.is_some_and(|li| quote.get(li).is_some_and(|q| q.abs() > 1e-9));
@@ -805,16 +814,82 @@ impl Prop for QuoteProp {
     }
 }
 
+/// Long tours evaluated with `LegSelection::Stochastic`: from a random size on (32-48 legs) only a sample of the legs is
+/// evaluated; whatever leg is answered, its quote must still be the realised change.
+pub struct QuoteLongProp;
+
+impl Prop for QuoteLongProp {
+    type Case = InsCase;
+    fn name(&self) -> &'static str {
+        "quote_on_long_tours_with_leg_sampling"
+    }
+    fn strategy(&self, _tier: Tier) -> BoxedStrategy<InsCase> {
+        (long_spec(), 0u8..6, any::<u64>(), prop::collection::vec(any::<u16>(), 24), 0u8..12).prop_map(|(spec, prefix, seed, picks, variant)| InsCase { spec: cost_spec(spec), prefix, seed, picks, variant }).boxed()
+    }
+    fn cases(&self, tier: Tier) -> u32 {
+        tier.pick(300, 6_000)
+    }
+    fn shards(&self, _tier: Tier) -> u32 {
+        16
+    }
+    fn max_shrink_iters(&self) -> u32 {
+        60
+    }
+    fn check(&self, c: &InsCase, stats: &Stats) -> Check {
+        let mut rendered = render(&cost_spec(c.spec.clone()));
+        let any_value = rendered.problem.plan.jobs.iter().any(|j| j.value.is_some());
+        let (objectives, layers) = objectives_for(c.variant, any_value);
+        rendered.problem.objectives = Some(objectives);
+        let core = read_core(&rendered.problem, &rendered.matrices).map_err(|e| Failure::new("harness:generator-invalid", format!("generated problem was rejected: {e}")))?;
+        // all but 1-6 jobs are inserted first
+        let n = core.jobs.size();
+        let ctx = build_state(&core, (n.saturating_sub(1 + c.prefix as usize)).min(250) as u8, c.seed)?;
+        let before: Vec<f64> = ctx.problem.goal.fitness(&ctx).collect();
+        ensure!(before.len() == layers.len(), "harness:layer-count", "goal has {} layers, the objective list {}", before.len(), layers.len());
+        let jobs = waiting_jobs(&ctx);
+        let routes = candidate_routes(&ctx);
+        let random: Arc<dyn Random> = Arc::new(SeededRandom::new(c.seed ^ 77));
+        let leg_selection = LegSelection::Stochastic(random);
+        let selector = BestResultSelector::default();
+        for r in routes.iter() {
+            let legs = r.route().tour.legs().count();
+            stats.class_max("quote_long.max_legs_in_a_tour", legs as u64);
+            for j in jobs.iter() {
+                let eval_ctx = EvaluationContext { goal: &ctx.problem.goal, job: j, leg_selection: &leg_selection, result_selector: &selector };
+                let result = guard(|| eval_job_insertion_in_route(&ctx, &eval_ctx, r, InsertionPosition::Any, InsertionResult::make_failure())).map_err(|p| Failure::new(format!("insert:eval-panic:{}", panic_site(&p)), format!("eval_job_insertion_in_route panicked: {p}")))?;
+                let InsertionResult::Success(success) = result else {
+                    stats.class("quote_long.rejected");
+                    continue;
+                };
+                compare_quote(&ctx, &rendered, &layers, &before, success, r, j, "Any/Stochastic", stats)?;
+                if legs >= 32 {
+                    stats.class("quote_long.tour_with_32plus_legs");
+                    stats.nontrivial(mix(hash_of(&format!("{c:?}")), hash_of(&job_id(j))));
+                }
+                if legs >= 48 {
+                    stats.class("quote_long.tour_with_48plus_legs_always_sampled");
+                }
+                match j {
+                    Job::Single(_) => stats.class("quote_long.single_task"),
+                    Job::Multi(_) => stats.class("quote_long.multi_task"),
+                }
+            }
+        }
+        stats.sample(1, || json!({"kind": "quote_on_long_tours_with_leg_sampling", "jobs": n, "waiting_jobs": jobs.len(), "layers": format!("{layers:?}")}));
+        Ok(())
+    }
+}
+
 pub fn property_c20(_tier: Tier) -> PropertyDef {
     PropertyDef {
         id: "C20",
         level: "exploration",
-        rule: "states as for C06 on generated pragmatic problems without breaks/reloads/soft order (conditional marker jobs have documented side effects on objectives), with an explicit objective list drawn from five orders of {minimize-unassigned, minimize-tours, minimize-distance | minimize-cost} plus maximize-value when jobs carry values; up to 24 (tour, waiting job, position) triples per case (Concrete(p) and Any, single- and multi-task jobs, existing and new tours): the InsertionSuccess quoted by eval_job_insertion_in_route is carried out through InsertionHeuristic::process (apply_insertion_success + finalisation) and for every additive layer k: fitness_k(after) - fitness_k(before) == quote_k (1e-6 relative); the minimize-cost layer is asserted only when neither the tour before nor the tour after contains waiting time (else counted as outside the premise). For goals without the cost layer the fitness realised by the Any answer of a single-task job must be lexicographically <= the fitness realised by every accepted Concrete(p). evaluations = carried-out placements compared. Non-trivial: an inner position of a non-empty tour with a non-zero distance/cost quote, or a new tour. Distinct by (case hash, triple).",
+        rule: "states as for C06 on generated pragmatic problems without breaks/reloads/soft order (conditional marker jobs have documented side effects on objectives), with an explicit objective list drawn from five orders of {minimize-unassigned, minimize-tours, minimize-distance | minimize-cost} plus maximize-value when jobs carry values; up to 24 (tour, waiting job, position) triples per case (Concrete(p) and Any, single- and multi-task jobs, existing and new tours): the InsertionSuccess quoted by eval_job_insertion_in_route is carried out through InsertionHeuristic::process (apply_insertion_success + finalisation) and for every additive layer k: fitness_k(after) - fitness_k(before) == quote_k (1e-6 relative); the minimize-cost layer is asserted only when neither the tour before nor the tour after contains waiting time (else counted as outside the premise). For goals without the cost layer the fitness realised by the Any answer of a single-task job must be lexicographically <= the fitness realised by every accepted Concrete(p). A second sub-check (quote_on_long_tours_with_leg_sampling) builds tours of 30-90 activities (long-tour class, all but 1-6 jobs inserted) and evaluates the waiting jobs with LegSelection::Stochastic, where only a sample of the legs is looked at: the quote of whatever leg is answered must equal the realised change as well. evaluations = carried-out placements compared. Non-trivial: an inner position of a non-empty tour with a non-zero distance/cost quote, or a new tour. Distinct by (case hash, triple).",
         assumptions: vec![
             "matrices are time-independent (pgen generates no time-aware matrices)",
             "non-additive objectives listed in the anchors (work balance, compactness, fast service, arrival time) are outside the statement and not asserted",
         ],
-        props: vec![Box::new(QuoteProp)],
+        props: vec![Box::new(QuoteProp), Box::new(QuoteLongProp)],
         extra: None,
         required_classes: vec![
             "quote.layer_checked.Unassigned",
@@ -829,6 +904,9 @@ pub fn property_c20(_tier: Tier) -> PropertyDef {
             "quote.multi_task",
             "quote.open_tour",
             "quote.cheapest_compared_over_2plus_positions",
+            "quote_long.tour_with_32plus_legs",
+            "quote_long.tour_with_48plus_legs_always_sampled",
+            "quote_long.single_task",
         ],
     }
 }
